@@ -1,5 +1,97 @@
-import GoRedisModel.Model.Show
-/-! placeholder until the theorems of C05 are written -/
+import GoRedisModel.Proofs.Table
+/-! # C05 — commands reach the handler with exactly the arguments the client sent -/
 namespace GoRedis
-theorem C05_placeholder : True := trivial
+
+/-- **Every command of the positional grammar** (28 commands), under any letter case of its name, on an
+authorized connection, with any byte strings as arguments (binary-safe: the arguments are arbitrary
+`Bytes`), any 64-bit integers, any float tokens the parser accepts, any list length ≥ 1 with order
+preserved and duplicates kept, and any surplus trailing arguments: the handler is invoked exactly once
+with precisely the decoded arguments, and what it returns is the reply (`singleCall`). -/
+theorem C05_dispatch_table (pf : FloatOracle) : ∀ row ∈ grammar, row.Dispatches pf := by
+  intro row hrow
+  simp only [grammar, List.mem_cons, List.mem_nil_iff, or_false] at hrow
+  rcases hrow with rfl | rfl | rfl | rfl | rfl | rfl | rfl | rfl | rfl | rfl | rfl | rfl | rfl | rfl | rfl | rfl | rfl | rfl | rfl | rfl | rfl | rfl | rfl | rfl | rfl | rfl | rfl | rfl
+  all_goals exact dispatches_of_shape pf _ _ _ (by decide) rfl rfl
+
+/-- what the handler returns is what the client receives: a message is passed through, an error becomes
+the error outcome -/
+theorem C05_reply_is_handler_result (r : HRes) :
+    (r.err = none → outOf r = .reply r.msg) ∧ (∀ t, r.err = some t → outOf r = .error { text := t }) := by
+  constructor
+  · intro h; simp [outOf, h]
+  · intro t h; simp [outOf, h]
+
+/-- exactly one handler call: the trace of `singleCall` against any script is span start, the call (seeing
+this connection's own state), span finish -/
+theorem C05_exactly_one_call (ucmd : Bytes) (c : HCall) (conn : ConnSt) (srv : SrvSt) (script : List HRes) :
+    ((singleCall ucmd c conn srv).run conn script).1 = [.spanStart ucmd, .hcall c conn, .spanFinish] := by
+  simp [singleCall, Prog.run, Prog.SpanOp.ev]
+
+/-- **SET with any combination of its options, in any order and letter case**: NX|XX at most one,
+KEEPTTL, GET, at most one of EX|PX|EXAT|PXAT with a positive integer. -/
+theorem C05_set (pf : FloatOracle) (srv : SrvSt) (conn : ConnSt) (c k v : Bytes) (ss : List Spelled)
+    (hh : srv.hasHandler = true) (ha : conn.authorized = true) (hu : upper c = b!"SET")
+    (hok : ∀ s ∈ ss, s.ok) (hc : Compat {} (ss.map Spelled.item)) :
+    executeCommand pf srv conn c (B k :: B v :: ss.flatMap Spelled.msgs) =
+      singleCall b!"SET" (.set k v ((ss.map Spelled.item).foldl SetOpt.apply {})) conn srv := by
+  have hx : execSet (B k :: B v :: ss.flatMap Spelled.msgs) =
+      callRet (.set k v ((ss.map Spelled.item).foldl SetOpt.apply {})) := by
+    have := setOpts_items b!"SET" {} ss hok hc []
+    simp only [List.append_nil, setOpts_nil] at this
+    simp [execSet, withArgs, this]
+  have := dispatch_callRet pf srv conn c _ execSet _ hh ha (by rw [hu]; decide) (by rw [hu]; rfl) hx
+  rw [hu] at this; exact this
+
+/-- key/value lists (MSET, MSETNX, HMSET, CONFIG SET): one entry per key, holding the last value given -/
+theorem C05_kv_last_wins (ps : List (Bytes × Bytes)) (k : Bytes) :
+    (mapOfPairs ps).lookup k = ps.reverse.lookup k := mapOfPairs_lookup ps k
+
+/-- list arguments arrive in the order sent, byte for byte, duplicates included -/
+theorem C05_list_order_preserved (l : List Bytes) : readStrings (l.map B) = .ok l := readStrings_B l
+
+/-- **An unknown command** yields an error reply without invoking any handler or touching any state. -/
+theorem C05_unknown_command (pf : FloatOracle) (srv : SrvSt) (conn : ConnSt) (cmd : Bytes) (args : List Msg)
+    (h1 : upper cmd ∉ systemNames) (h2 : (userTable pf).lookup (upper cmd) = none)
+    (h3 : upper cmd ∉ nestedNames) :
+    executeCommand pf srv conn cmd args = .ret (.reply (notSupported cmd), conn, srv) := by
+  simp [nestedNames] at h3
+  by_cases hh : srv.hasHandler = true
+  · simp [executeCommand, hh, execSystem_none srv conn _ args h1, execUser, h2, nested1, h3]
+  · simp [executeCommand, hh]
+
+/-- case-insensitive matching: every letter-case variant of a name upper-cases to the name -/
+theorem C05_case_insensitive (c : Bytes) (h : ∀ b ∈ c, (65 ≤ b ∧ b ≤ 90) ∨ (97 ≤ b ∧ b ≤ 122)) :
+    upper (c.map fun b => if 65 ≤ b ∧ b ≤ 90 then b + 32 else b) = upper c := by
+  induction c with
+  | nil => rfl
+  | cons b bs ih =>
+    have hb := h b (by simp)
+    have := ih (fun x hx => h x (by simp [hx]))
+    simp only [upper, List.map] at this ⊢
+    rw [this]
+    congr 1
+    rcases hb with hb | hb
+    · have h1 : 65 ≤ b ∧ b ≤ 90 := hb
+      have e1 : ¬ (97 ≤ b ∧ b ≤ 122) := by intro ⟨x, _⟩; exact absurd (UInt8.le_trans x hb.2) (by decide)
+      simp only [h1, and_self, if_true, upperByte, e1, if_false]
+      have : 97 ≤ b + 32 ∧ b + 32 ≤ 122 := by
+        obtain ⟨l, u⟩ := hb
+        constructor <;> (simp only [UInt8.le_iff_toNat_le] at *; simp only [UInt8.toNat_add, UInt8.toNat_ofNat] at *; omega)
+      simp only [this, and_self, if_true]
+      rw [UInt8.add_sub_cancel]
+    · have e1 : ¬ (65 ≤ b ∧ b ≤ 90) := by intro ⟨_, y⟩; exact absurd (UInt8.le_trans hb.1 y) (by decide)
+      simp [e1]
+
+/-! ## Non-vacuity -/
+
+example : (⟨.exp .px 1500, b!"pX", b!"1500"⟩ : Spelled).ok := by
+  simp [Spelled.ok, SetItem.kw, ExpKind.kw, upper, upperByte, atoi, digitsVal, maxInt]
+
+example : Compat {} [.get, .exp .px 1500, .nx] := by simp [Compat, SetOpt.admits, SetOpt.apply]
+
+example : b!"RENAME" ∉ systemNames ∧ (⟨b!"RENAME", .ss fun k n => .rename k n false⟩ : Row) ∈ grammar := by
+  constructor
+  · decide
+  · simp [grammar]
+
 end GoRedis
